@@ -40,6 +40,8 @@ CLAIMED = {
           "Bounds: K=2/3 messages, payloads <= 2/3 bytes, 1-2 columns. A client stream that simply ends inside COPY is C04's.", "DESIGN.md §7 C13"),
  "C14": C("The binary COPY row reader on the standard header followed by R ARBITRARY bytes (tuples, corrupt field counts and lengths, trailer), cut into CopyData messages at solver-chosen split points; the reference decodes the unsplit stream; rows, NULLs, errors and end-of-stream must agree for every split, a wrong field count or truncated field is an error and never a panic or a fabricated row. One open known finding (KF-C14-1: a tuple spanning two CopyData messages is not reassembled) is carved out by its exact condition (a split point that is not a tuple boundary) and reported as KNOWN-FINDING; every other split must agree.",
           "Bounds: R=8/11 bytes, <=1/2 splits, 1-2 text columns (pgx TextCodec.DecodeValue executed from its own code). Header concrete (flags 0, no extension); streams ending without the trailer and empty CopyData chunks are outside the claim.", "DESIGN.md §7 C14"),
+ "C15": ("other", "Conflict-freedom lemma decided by the symbolic engine over the real code, plus a commutation argument. Lemma: two connections are served by one Server through the real serve path with solver-chosen traffic (symbolic users, the SAME symbolic statement/portal name on both, extended and simple queries, statements that write rows through the type map or only complete); on every explored path the engine records every heap cell the library reads or writes on behalf of each connection together with the locks held, and asserts that no cell written for one connection is read or written for the other unless both accesses are sync/atomic operations or hold a common lock; environment models contribute declared footprints (pgtype.Map.Encode writes its receiver and appends into the caller's buffer). Each connection's transcript and callback counts are also asserted to be what its own traffic determines. From the lemma to the property (argument, not solver): steps of different connections that touch disjoint mutable state commute, hence every interleaving is equivalent to serving the connections one after the other, and there is no pair of conflicting unsynchronised accesses. A footprint counterexample is replayed natively by serving the same two connections CONCURRENTLY in a binary built with Go's race detector; it is reported only if the detector fires.",
+          "Cannot be encoded: the Go scheduler and memory model, and races inside dependencies beyond their declared footprints - hence level 'other' rather than model_checking for the schedule quantifier. Bounds: two connections, each startup + optional Parse/Bind/Describe/Execute/Sync + optional simple query + Terminate. " + TRUST, TECH + "; footprint (read/write-set) conflict check; native replay under the Go race detector", "DESIGN.md §7 C15"),
  "C17": C("The error value is built by a solver-chosen nesting of D decorators (code, severity, hint, detail, source, constraint, fmt %w wrapping, none) with symbolic payload bytes; the emitted ErrorResponse is parsed by an independent strict grammar and compared field for field with a reference walking the same choices (outermost wins, defaults ERROR/XXUUU, each field at most once, line as decimal text); nil error -> FATAL/XX000.",
           "Bounds: D=2/3, payloads 1-2 non-NUL bytes, source line 0..999. strconv.Itoa and fmt.Errorf are modelled.", "DESIGN.md §7 C17"),
  "C18": C("H18a is a one-step inductive lemma on the reader's message window with a fully symbolic header (offset, length, capacity and requested size all range over 0..2^31): the next window never overlaps bytes exposed through an earlier one, so data handed to callbacks is never overwritten, for histories of any length.",
